@@ -32,10 +32,25 @@ Fixpoint has_dup (l : list N) : bool := match l with [] => false | x :: l' => ex
 Definition model_chain (c : case19) : list (N * N) * option lerr :=
   compute N N.eqb (tbl_step (k_table c)) (tbl_external (k_table c)) (N.to_nat (k_max c)) 0.
 
-(* the clause of the property about chains, on the crate's output *)
+(* the reported hops follow the one-hop function (computed independently by the harness): each hop is the step of its predecessor *)
+Fixpoint hops_follow (t : list (N * option (N * N) * bool * bool)) (cur : N) (hs : list (N * N)) : bool :=
+  match hs with
+  | [] => true
+  | (n, code) :: rest => match tbl_step t cur with
+                         | Some (m, d) => N.eqb m n && N.eqb d code && hops_follow t n rest
+                         | None => false
+                         end
+  end.
+
+(* the clause of the property about chains, on the crate's output: within the limit, a loop is reported exactly when a
+   (url, method) pair repeats, and the hops are the real chain of the example *)
 Definition chain_ok (c : case19) : bool :=
   N.leb (N.of_nat (length (o_hops c))) (k_max c + 1)
-  && Bool.eqb (N.eqb (o_err c) 3) (has_dup (map fst (o_hops c))).
+  && Bool.eqb (N.eqb (o_err c) 3) (has_dup (map fst (o_hops c)))
+  && match o_hops c with
+     | (n0, _) :: rest => N.eqb n0 0 && hops_follow (k_table c) 0 rest
+     | [] => false
+     end.
 
 Definition verdict19 (c : case19) : N :=
   (vbit (negb (k_has_chain c) || (let '(h, e) := model_chain c in hops_eqb h (o_hops c) && N.eqb (err_code e) (o_err c))) 1
